@@ -19,6 +19,23 @@ func ReportCommon(h *History, rep Reporter) {
 	for p, n := range h.PathUsed {
 		rep.Count("path."+p.String(), int64(n))
 	}
+	ReportKeyManager(h, rep)
+}
+
+// ReportKeyManager emits the key manager counters of a history (key manager support; no-op without a key manager).
+func ReportKeyManager(h *History, rep Reporter) {
+	if h.KMMon != nil {
+		rep.Count("histories_with_key_manager", 1)
+		h.KMMon.Report(rep)
+		for _, k := range []string{"km-policy-update", "km-ephemeral-secret", "km-master-secret-proposal", "km-churp-create", "km-churp-update", "km-churp-apply", "km-churp-confirm"} {
+			rep.Count("km.ok."+k, int64(h.Gen.Notes[k]))
+		}
+		// A monitor without a reporter of its own belongs to a check of another property: what it
+		// found is handed on, not judged here (its assertions are owned by C14 and C17).
+		for _, p := range h.KMMon.Problems {
+			rep.Inconclusive(fmt.Sprintf("key manager monitor (see C14/C17): %s: %s", p.Kind, p.What))
+		}
+	}
 }
 
 // TxOutcomeKinds returns how many distinct (method, intent, outcome) classes were executed.
@@ -34,6 +51,20 @@ func TxOutcomeKinds(h *History) []string {
 // PanicSignature builds a specific signature for a recovered panic.
 func PanicSignature(p *Panic) string {
 	return fmt.Sprintf("panic/%s/%s", p.Where, classify(p.Value))
+}
+
+// WithExtraCases appends n more cases of one profile to a standard case list (the seeds continue the
+// list's sequence, so the cases before them stay what they were).
+func WithExtraCases(cs []Case, seed int64, n int, profile string) []Case {
+	blocks := 60
+	if len(cs) > 0 {
+		blocks = cs[0].Blocks
+	}
+	for j := 0; j < n; j++ {
+		i := len(cs)
+		cs = append(cs, Case{Index: i, Seed: uint64(seed)*1_000_003 + uint64(i)*7919 + 13, Profile: profile, Blocks: blocks})
+	}
+	return cs
 }
 
 // StdCases builds the standard case list: n histories over the given profiles.
